@@ -55,6 +55,18 @@ def gen_family(r, sym_ok=True, ill_bias=0.5, var_names=("v",)):
         expr = r.choice([f"{nm[0]}+1", f"2*{nm[0]}", f"{nm[0]}*{nm[-1]}", "{k}", f"{nm[0]}+{{k}}"])
         ret_toks = [t for t in ret_toks if t["kind"] not in ("var", "anonvar")][:2] + [{"kind": "sym", "expr": expr, "b": r.random() < 0.2}]
         has_sym = True
+    if sym_ok and r.random() < 0.2:
+        # self-contained chain inside ONE annotation: name, symbolic axis, a name first bound inside this annotation, symbolic
+        # axis using it -- valid under every parameter permutation because every name is bound before its use
+        names = ["a", "b", "c"]
+        x, y = r.sample(names, 2)
+        chain = [{"kind": "named", "name": x, "b": False}, {"kind": "sym", "expr": r.choice((f"{x}+1", f"2*{x}")), "b": False},
+                 {"kind": "named", "name": y, "b": False}, {"kind": "sym", "expr": r.choice((f"{y}+1", f"{x}*{y}", f"{x}+{y}")), "b": False}]
+        if r.random() < 0.5:
+            ret_toks = chain
+        else:
+            params[r.randrange(len(params))]["toks"] = chain
+        has_sym = True
     ret = {"toks": ret_toks, "atype": r.choice(("np", "np", "duck")), "dtype": r.choice(("Float", "Shaped"))}
     vals = []
     for p in params + [ret]:
